@@ -68,6 +68,22 @@ uint32_t inet_pton(uint32_t af, char* src, char* dst) {
 }
 #endif
 
+/* OpenSSL AES (FFI): arbitrary key schedule / ciphertext, argument ranges checked */
+#ifndef VP_NATIVE
+uint32_t AES_set_encrypt_key(char* userKey, uint32_t bits, char* key) {
+  __CPROVER_assert(bits == 128 || bits == 192 || bits == 256, "AES_set_encrypt_key: key size");
+  __CPROVER_assert(__CPROVER_r_ok(userKey, bits / 8), "AES_set_encrypt_key: user key readable");
+  __CPROVER_assert(__CPROVER_w_ok(key, 244), "AES_set_encrypt_key: AES_KEY writable");
+  return 0;
+}
+void AES_encrypt(char* in, char* out, char* key) {
+  (void)key;
+  __CPROVER_assert(__CPROVER_r_ok(in, 16), "AES_encrypt: input block readable");
+  __CPROVER_assert(__CPROVER_w_ok(out, 16), "AES_encrypt: output block writable");
+  for (int i = 0; i < 16; ++i) out[i] = (char)nondet_u8();
+}
+#endif
+
 /* std::_Hash_bytes (libstdc++.so): any deterministic function of the bytes; rotate-xor here (hash quality is nobody's claim, and
  * multiplications would make 'equal bytes => equal hash' a hard equivalence query) */
 uint64_t _ZSt11_Hash_bytesPKvmm(char* p, uint64_t n, uint64_t seed) {
